@@ -63,9 +63,12 @@ Open(t, lab, ownlog, owntrace) ==
                                  ELSE IF p # 0 /\ Bug # "outermost_logger" THEN lg[p]
                                  ELSE IF p # 0 THEN lg[RootOf(p)]     \* mutant: the outermost scope's logger
                                  ELSE [kind |-> "named", s |-> s]]
-     /\ tr' = [tr EXCEPT ![s] = IF owntrace THEN [given |-> TRUE, s |-> s]
-                                 ELSE IF p # 0 /\ Bug # "fresh_trace" THEN tr[p]
-                                 ELSE [given |-> FALSE, s |-> s]]
+     \* owntrace: "no" - none given; "own" - the caller's id; "empty" - the caller gives the EMPTY string: the library may
+     \* read that as "none given" or as an id like any other (the property does not say), but nothing else
+     /\ LET none == IF p # 0 /\ Bug # "fresh_trace" THEN tr[p] ELSE [given |-> FALSE, s |-> s]
+            own == [given |-> TRUE, s |-> s] IN
+        \E v \in (CASE owntrace = "own" -> {own} [] owntrace = "empty" -> {none, own} [] OTHER -> {none}) :
+           tr' = [tr EXCEPT ![s] = v]
      /\ saved' = [saved EXCEPT ![s] = cur[t]]
      /\ cur' = [cur EXCEPT ![t] = s]
      /\ stack' = [stack EXCEPT ![t] = Append(@, s)]
@@ -101,7 +104,7 @@ Start(t, u) ==
   /\ obs' = NoLine
 
 Next == \E t \in Tasks :
-          \/ \E lab \in Labels, ol \in BOOLEAN, ot \in BOOLEAN : Open(t, lab, ol, ot)
+          \/ \E lab \in Labels, ol \in BOOLEAN, ot \in {"no", "own", "empty"} : Open(t, lab, ol, ot)
           \/ \E how \in {"return", "cancel"} : Close(t, how)
           \/ \E lvl \in Levels, text \in Texts, exc \in BOOLEAN : Log(t, lvl, text, exc)
           \/ \E u \in Tasks : Start(t, u)
